@@ -365,7 +365,10 @@ def validate_batch(ctx, module, cfg, runs, tag, bad_events=('error', 'hang', 'no
             rejected.append(i)
             live.remove(i)
     rounds = 0
-    while live and rounds < 8:
+    # every run starts with a reset event, so the runs in front of a rejected one are accepted for good: only the runs behind it
+    # are validated again (the number of rounds is the number of rejected runs + 1; capped, the rest is then reported as rejected
+    # by a last resort of one run per TLC call being too slow)
+    while live and rounds < 40:
         rounds += 1
         lines, owner = [], []
         for i in live:
@@ -381,5 +384,8 @@ def validate_batch(ctx, module, cfg, runs, tag, bad_events=('error', 'hang', 'no
             raise Infra('trace validation rejected a batch but reported no position:\n' + out[-2000:])
         bad = owner[hw - 1]
         rejected.append(bad)
-        live.remove(bad)
+        live = live[live.index(bad) + 1:]
+    else:
+        if live:
+            raise Infra(f'{len(rejected)} runs rejected and {len(live)} still unjudged after 40 rounds of trace validation')
     return rejected
